@@ -177,15 +177,9 @@ macro_rules! parse_impl {
         let mut outs = vec![];
         let pre_ops: Vec<J> = $st["pre_ops"].as_array().cloned().unwrap_or_default();
         let pre_static: Vec<(String, &'static str)> = pre_ops.iter().map(|o| (o[0].as_str().unwrap_or("").to_string(), leak(o[1].as_str().unwrap_or("")))).collect();
-        macro_rules! configure {
-            ($p:ident) => {
-                if let Some(f) = footer { $p.set_footer(Footer::from(leak(f))); }
-                parse_impl!(@ia $ia, $p, assertion);
-                for (name, val) in pre_static.iter() {
-                    if name == "footer" { $p.set_footer(Footer::from(*val)); }
-                    if name == "assertion" { parse_impl!(@ia $ia, $p, Some(*val)); }
-                }
-                for c in &checks {
+        macro_rules! apply_checks {
+            ($p:ident, $list:expr) => {
+                for c in $list {
                     let k = c["key"].as_str().unwrap_or("");
                     let sv: &'static str = leak(c["value"].as_str().unwrap_or(""));
                     match k {
@@ -199,6 +193,18 @@ macro_rules! parse_impl {
                 }
             };
         }
+        macro_rules! configure {
+            ($p:ident) => {
+                if let Some(f) = footer { $p.set_footer(Footer::from(leak(f))); }
+                parse_impl!(@ia $ia, $p, assertion);
+                for (name, val) in pre_static.iter() {
+                    if name == "footer" { $p.set_footer(Footer::from(*val)); }
+                    if name == "assertion" { parse_impl!(@ia $ia, $p, Some(*val)); }
+                }
+                apply_checks!($p, &checks);
+            };
+        }
+
         if layer == "prelude" {
             let mut p = if $st["default_parser"].as_bool().unwrap_or(true) { PasetoParser::<$V, $P>::default() } else { PasetoParser::<$V, $P>::new() };
             configure!(p);
@@ -214,6 +220,8 @@ macro_rules! parse_impl {
                 }
             }
             for (ti, t) in $toks.iter().enumerate() {
+                if let Some(list) = $st["mid_checks"][ti.to_string().as_str()].as_array() { let list: Vec<J> = list.clone(); apply_checks!(p, &list); }
+                if let Some(ms) = $st["sleep_ms_before"][ti.to_string().as_str()].as_u64() { std::thread::sleep(std::time::Duration::from_millis(ms)); }
                 CALLS.with(|c| c.borrow_mut().clear());
                 let r = guarded(|| p.parse(t, if alt_for.contains(&ti) { &key2 } else { &key }).map(|v| v.to_string()).map_err(|e| format!("{:?}", e)));
                 let calls: Vec<J> = CALLS.with(|c| c.borrow().iter().map(|(k, v)| json!([k, v])).collect());
@@ -240,6 +248,8 @@ macro_rules! parse_impl {
             }
             if !ext.is_empty() { p.extend_validation_claims(ext); }
             for (ti, t) in $toks.iter().enumerate() {
+                if let Some(list) = $st["mid_checks"][ti.to_string().as_str()].as_array() { let list: Vec<J> = list.clone(); apply_checks!(p, &list); }
+                if let Some(ms) = $st["sleep_ms_before"][ti.to_string().as_str()].as_u64() { std::thread::sleep(std::time::Duration::from_millis(ms)); }
                 CALLS.with(|c| c.borrow_mut().clear());
                 let r = guarded(|| p.parse(t, if alt_for.contains(&ti) { &key2 } else { &key }).map(|v| v.to_string()).map_err(|e| format!("{:?}", e)));
                 let calls: Vec<J> = CALLS.with(|c| c.borrow().iter().map(|(k, v)| json!([k, v])).collect());
